@@ -66,6 +66,10 @@ def generate(tier, seed):
             "EVAL (let ((h (make-hash-table)) (hits 0)) (dotimes (i 400) (puthash (concat \"key\" \"\") i h)) (dotimes (i 200) (if (gethash (concat \"key\" \"\") h) (setq hits (+ hits 1)))) hits)",
             "EVAL (let ((h (make-hash-table)) (hits 0) (ks nil)) (dotimes (i 300) (setq ks (cons (format \"k%d\" (mod i 7)) ks)) (puthash (car ks) i h)) (dolist (k ks) (if (gethash (format \"%s\" k) h) (setq hits (+ hits 1)))) (list hits (length (seq-filter (lambda (k) (gethash k h)) ks))))",
             "EVAL (let ((h (make-hash-table)) (hits 0)) (dotimes (i 300) (puthash (list i) i h) (puthash (+ i 0.5) i h)) (dotimes (i 300) (if (gethash (list i) h) (setq hits (+ hits 1))) (if (gethash (+ i 0.5) h) (setq hits (+ hits 1000)))) hits)"]
+    numid = ["EVAL (let ((a (+ 3 4)) (b (+ 3 4))) (list 'numid (eq a a) (eq a b) (equal a b) (eq b a)))", "EVAL (list 'numid (eq (* 2 50) (* 2 50)) (eq (+ 1.5 1) (+ 1.5 1)) (eq (- 0 7) (- 0 7)))",
+             "EVAL (let ((x (list (+ 1 1))) (y (list (+ 1 1)))) (list 'numid (equal x y) (eq (car x) (car y)) (eq (car x) (car x))))",
+             "EVAL (let ((a (length '(1 2 3))) (b (length '(4 5 6)))) (list 'numid (eq a b) (eq a a) (equal a b)))", "EVAL (let ((a (1+ 41)) (b (1- 43))) (list 'numid (eq a b) (equal a b)))"]
+    lines += ["NEW"] + numid
     lines += ["NEW"] + sym
     # hash tables
     keys = ["'a", "'b", "1", "1.0", '"s"', "ks", "kl", ":k", "nil", "t", "2", "1.5", "0.0", "-0.0", "kl2", "ks2"]
@@ -94,8 +98,19 @@ def generate(tier, seed):
         nt.add(tuple(sq))
     return {"lines": lines, "nontrivial": len(nt), "distribution": {"pairs": len(pairs), "table_sequences": len(seqs)}}
 
+NUMID_EXPECT = ["OK (y:numid t nil t nil)", "OK (y:numid nil nil nil)", "OK (y:numid t nil t)", "OK (y:numid nil t t)", "OK (y:numid nil t)"]
+
+def ignore_line(l):
+    return "'numid" in l
+
 def oracle(lines, impl, model, meta):
     bad = []
+    k = 0
+    for i, l in enumerate(lines):
+        if "'numid" in l:
+            if (impl[i] or "") != NUMID_EXPECT[k % len(NUMID_EXPECT)]:
+                bad.append(("identity of number objects: got %s, expected %s" % (impl[i], NUMID_EXPECT[k % len(NUMID_EXPECT)]), ["NEW", l], 1, impl[i], None))
+            k += 1
     for idxs in C.split_cases(lines):
         for i in idxs:
             l, a = lines[i], impl[i] or ""
